@@ -27,7 +27,7 @@ F(n, x) == [nm |-> n, ex |-> x]
 ListE(xs) == [e |-> "list", xs |-> xs]
 FuncE(ps, body) == [e |-> "func", ps |-> ps, body |-> body]
 LetS(n, x) == [s |-> "let", nm |-> n, x |-> x]
-n_t == << "t" >>  n_u == << "u" >>  n_l == << "l" >>  n_m == << "m" >>  n_s == << "s" >>  n_p == << "p" >>
+n_t == << "t" >>  n_u == << "u" >>  n_l == << "l" >>  n_m == << "m" >>  n_s == << "s" >>  n_p == << "p" >>  n_r == << "r" >>
 n_k1 == << "k", "o" >>  n_kn == << "k", "n" >>  n_k3 == << "k", "t" >>  n_c1 == << "c", "o" >>  n_cs == << "c", "s" >>  n_kb == << "k", "b" >>
 n_inc == << "i", "n", "c" >>  n_add == << "a", "d", "d" >>  n_kv == << "k", "v" >>  n_red == << "r", "e", "d" >>
 n_lb == << "l", "b" >>  n_tb == << "t", "b" >>
@@ -199,6 +199,12 @@ CastsIS == {"int", "str"}
 FldsP == << n_p >>
 FamCmpData == {"lit", "list", "tuple", "bin", "let"}            \* == and != between lists and tuples of every small shape
 OpsEqNe == {"eq", "ne"}
+(* a function that copies its parameter with one more field; the field is selected from the result *)
+CopyE(sel, flds) == [e |-> "copy", sel |-> sel, flds |-> flds]
+CallE(fn, args) == [e |-> "call", fn |-> fn, args |-> args]
+PreCopyFn == << LetS(n_f, FuncE(<< n_t >>, CopyE(n_t, << F(n_b, L(IntV(2))) >>))),
+                LetS(n_r, CallE(n_f, << TupE(<< F(n_a, L(IntV(1))) >>) >>)) >>
+FamSelUse == {"lit", "var", "bin", "dot", "let"}
 SigsRes == << << Fld(N_env, IntV(1)) >>, << Fld(N_self, IntV(1)) >>, << Fld(n_x, IntV(2)) >> >>     \* parameters named env, self
 FamFuncSel == {"lit", "var", "bin", "dot", "func", "letuse"}      \* bodies that select fields / elements of a parameter
 SigsTup == << << Fld(n_t, TupleV(<< Fld(n_a, IntV(1)), Fld(n_b, IntV(2)) >>)) >>,
